@@ -704,7 +704,7 @@ def time_at_sample_from_tof(
     """
     c = sc.to_unit(
         const.h / const.m_n,
-        sc.units.angstrom * elem_unit(L2) / elem_unit(tof),
+        elem_unit(wavelength) * elem_unit(L2) / elem_unit(tof),
         copy=False,
     )
     return pulse_time + tof - L2 * wavelength / c
